@@ -111,9 +111,10 @@ func judgeCaptured(id string, c *core.Case, fit bool) Result {
 			continue
 		}
 		if err := model.WellFormed(co.Rects, co.Start, co.End); err != nil {
-			r.stat("captured_malformed_corridors", 1)
-			r.stat("captured_malformed_corridors:"+core.PositionerNames[c.Opts.Positioner], 1)
-			r.Notes = append(r.Notes, fmt.Sprintf("%s case %d: phase 5 built a corridor that is not well-formed (%v): corridor construction, not judged here", id, c.Index, err))
+			// logged by the router before its own precondition check; such corridors are not routed (straight fallback)
+			_ = err
+			r.stat("captured_malformed_corridors_not_judged", 1)
+			r.stat("captured_malformed_corridors_not_judged:"+core.PositionerNames[c.Opts.Positioner], 1)
 			continue
 		}
 		path, pi := callShortest(co)
